@@ -59,7 +59,7 @@ var ReflectHookNames = []string{"OnChild", "OnField(never selected)", "OnField(s
 func Variant(r *kit.Rng, base string) string {
 	var n int
 	switch base {
-	case "nstruct", "nmap":
+	case "nstruct", "nmap", "nacc":
 		n = len(NodeHookNames)
 	case "rstruct", "rmap":
 		n = len(ReflectHookNames)
@@ -168,7 +168,9 @@ func hookReflect(mask uint32) nodeutil.Reflect {
 	}
 	if mask&2 != 0 {
 		rf.OnField = append(rf.OnField, nodeutil.ReflectField{
-			When: func(m meta.Leafable, fieldname string, elem reflect.Value, fieldElem reflect.Value) bool { return false },
+			When: func(m meta.Leafable, fieldname string, elem reflect.Value, fieldElem reflect.Value) bool {
+				return false
+			},
 			OnRead: func(leaf meta.Leafable, fieldname string, elem reflect.Value, fieldElem reflect.Value) (val.Value, error) {
 				return nil, fmt.Errorf("harness: OnRead of a field handler whose selector said no")
 			},
